@@ -986,6 +986,39 @@ func verifReadPatchVariations(a, b, c JsonNode, v int) string {
 	return ""
 }
 
+// verifCoalescedContext: the variation of the rendered patch contains two add operations with the
+// same path with a context test somewhere between them (ReadPatchString folds the second add into the
+// first hunk and drops the tests in between; a recorded finding).
+func verifCoalescedContext(a, b JsonNode, v int) bool {
+	p0, err := a.Diff(b).RenderPatch()
+	if err != nil {
+		return false
+	}
+	p, ok := verifPatchVariant(p0, v)
+	if !ok {
+		return false
+	}
+	var ops []map[string]interface{}
+	if json.Unmarshal([]byte(p), &ops) != nil {
+		return false
+	}
+	for i := range ops {
+		if ops[i]["op"] != "add" {
+			continue
+		}
+		sawTest := false
+		for j := i + 1; j < len(ops); j++ {
+			if ops[j]["op"] == "test" {
+				sawTest = true
+			}
+			if ops[j]["op"] == "add" && ops[j]["path"] == ops[i]["path"] && sawTest {
+				return true
+			}
+		}
+	}
+	return false
+}
+
 // verifReadPatchVariationsSmall: the same over all small arrays of numbers.
 func verifReadPatchVariationsSmall(a, b, c JsonNode, v int) string {
 	return verifReadPatchVariations(a, b, c, v)
